@@ -89,9 +89,9 @@ def f64ToInt (b : Nat) : Except PyErr Int :=
     let mag : Nat := if e ≥ 1075 then sig * 2 ^ (e - 1075) else sig / 2 ^ (1075 - e)
     .ok (if f64Sign b = 1 then -(mag : Int) else (mag : Int))
 
-/-- the characters `int()` / `float()` strip (ASCII part of `str.isspace`) -/
+/-- the ASCII characters `int()` strips: space, `\t \n \v \f \r` (0x1c-0x1f are not stripped, measured) -/
 def isPyWs (c : Char) : Bool :=
-  c.toNat == 0x20 || (0x09 ≤ c.toNat && c.toNat ≤ 0x0d) || (0x1c ≤ c.toNat && c.toNat ≤ 0x1f)
+  c.toNat == 0x20 || (0x09 ≤ c.toNat && c.toNat ≤ 0x0d)
 
 def stripWs (cs : List Char) : List Char :=
   ((cs.dropWhile isPyWs).reverse.dropWhile isPyWs).reverse
@@ -227,6 +227,8 @@ structure Host where
   nameCbs : List (Nat × Nat × Nat) -- (group, name, callback) in registration order
   groupCbs : List (Nat × Nat)
   allCbs : List Nat
+  nameCallers : List (Nat × Nat) := []   -- keys of `param_update_callbacks` (a `Caller` exists, possibly empty)
+  groupCallers : List Nat := []          -- keys of `group_update_callbacks`
   deriving DecidableEq, Repr
 
 def Host.init (toc : List Elem) (v2 : Bool) : Host :=
@@ -451,20 +453,20 @@ def addUnique {α} [BEq α] (l : List α) (x : α) : List α := if l.contains x 
 def addCb (h : Host) (g n : Option Nat) (cb : Nat) : Host :=
   match g, n with
   | _, some nn => match g with
-    | some gg => { h with nameCbs := addUnique h.nameCbs (gg, nn, cb) }
+    | some gg => { h with nameCbs := addUnique h.nameCbs (gg, nn, cb), nameCallers := addUnique h.nameCallers (gg, nn) }
     | none => h                                   -- a name without a group: registered under 'None.name', never called
-  | some gg, none => { h with groupCbs := addUnique h.groupCbs (gg, cb) }
+  | some gg, none => { h with groupCbs := addUnique h.groupCbs (gg, cb), groupCallers := addUnique h.groupCallers gg }
   | none, none => { h with allCbs := addUnique h.allCbs cb }
 
 /-- `remove_update_callback(group, name, cb)`: `Caller.remove_callback` raises `ValueError` for an unknown callback -/
 def removeCb (h : Host) (g : Nat) (n : Option Nat) (cb : Nat) : Host × List Out :=
   match n with
   | none =>
-    if h.groupCbs.any (fun x => x.1 == g) then
+    if h.groupCallers.contains g then
       if h.groupCbs.contains (g, cb) then ({ h with groupCbs := h.groupCbs.erase (g, cb) }, []) else (h, [.raised .valueError])
     else (h, [])
   | some nn =>
-    if h.nameCbs.any (fun x => x.1 == g && x.2.1 == nn) then
+    if h.nameCallers.contains (g, nn) then
       if h.nameCbs.contains (g, nn, cb) then ({ h with nameCbs := h.nameCbs.erase (g, nn, cb) }, []) else (h, [.raised .valueError])
     else (h, [])
 
